@@ -186,6 +186,38 @@ def eagerVT (σ : St) : Var → St
   | .name t => σ.read t true true
   | .expr _ p ss => eagerSs (eagerPT σ p) ss
 
+/-! ### what `read_expression` still has to read of an `until` condition after the visitor has walked it (`topE` below):
+bare names, the prefix name of an indexed variable, `...` — everything inside a call, and every index, has been read -/
+mutual
+def restE (σ : St) : Expr → St
+  | .paren _ e => restE σ e
+  | .un _ _ e => restE σ e
+  | .bin _ l _ r => restE (restE σ l) r
+  | .func _ _ _ => σ
+  | .call _ => σ
+  | .tbl _ fs => restFields σ fs
+  | .dots t => σ.read t
+  | .var (.name t) => σ.read t
+  | .var (.expr _ p _) => restP σ p
+  | .nil _ => σ
+  | .true_ _ => σ
+  | .false_ _ => σ
+  | .num _ => σ
+  | .str _ _ _ => σ
+  | .unsupported _ => σ
+def restP (σ : St) : Prefix → St
+  | .name t => σ.read t
+  | .expr e => restE σ e
+def restF (σ : St) : Field → St
+  | .exprKey _ k v => restE (restE σ k) v
+  | .nameKey _ _ v => restE σ v
+  | .noKey v => restE σ v
+  | .unsupported _ => σ
+def restFields (σ : St) : FieldList → St
+  | .nil => σ
+  | .cons f rest => restFields (restF σ f) rest
+end
+
 /-! ### the descent: function bodies inside expressions, statements, blocks -/
 mutual
 def descE (σ : St) : Expr → St
@@ -233,6 +265,37 @@ def descV (σ : St) : Var → St
 def descVs (σ : St) : VarList → St
   | .nil => σ
   | .cons v rest => descVs (descV σ v) rest
+/-- the condition of `repeat … until`: `visit_repeat_end` reads it only after the visitor has walked it, so the reads the
+    visitor's own hooks make on the way come first, interleaved with the closures it enters — a call is read like a call
+    statement (prefix, then every suffix in turn: `visit_call` / `visit_index` read the arguments / the index before their
+    children are visited); an indexed variable's suffixes likewise, its prefix not yet; a bare name not yet -/
+def topE (σ : St) : Expr → St
+  | .paren _ e => topE σ e
+  | .un _ _ e => topE σ e
+  | .bin _ l _ r => topE (topE σ l) r
+  | .func _ _ body => body_ σ body
+  | .call (.mk _ p ss) => stmtSs (descP (eagerP σ p) p) ss
+  | .tbl _ fs => topFields σ fs
+  | .var (.name _) => σ
+  | .var (.expr _ p ss) => stmtSs (topP σ p) ss
+  | .nil _ => σ
+  | .true_ _ => σ
+  | .false_ _ => σ
+  | .dots _ => σ
+  | .num _ => σ
+  | .str _ _ _ => σ
+  | .unsupported _ => σ
+def topP (σ : St) : Prefix → St
+  | .name _ => σ
+  | .expr e => topE σ e
+def topF (σ : St) : Field → St
+  | .exprKey _ k v => topE (topE σ k) v
+  | .nameKey _ _ v => topE σ v
+  | .noKey v => topE σ v
+  | .unsupported _ => σ
+def topFields (σ : St) : FieldList → St
+  | .nil => σ
+  | .cons f rest => topFields (topF σ f) rest
 /-- a call in statement position: no hook reads the whole call first — the prefix is read, its closures
     are entered, then each suffix is read and entered in turn -/
 def stmtSs (σ : St) : SuffixList → St
@@ -280,7 +343,7 @@ def stmt (σ : St) : Stmt → St
   | .call (.mk _ p ss) => stmtSs (descP (eagerP σ p) p) ss
   | .do_ _ b => (block σ.open b).close
   | .while_ _ c b => (block (descE (eagerE σ c).open c) b).close
-  | .repeat_ _ b c => (eagerE (descE (block σ.open b) c) c).close
+  | .repeat_ _ b c => (restE (topE (block σ.open b) c) c).close
   | .if_ _ c b elifs els =>
     let σ := (eagerE σ c).open
     let σ := descE σ c
